@@ -141,7 +141,16 @@ def cases(draw):
             return {'model': spec, 'T': 'T1', 'text': T.render_flow(gen.project(v, spec)),
                     'text2': T.render_flow(gen.project(v2, spec)), 'src': how or 'value'}
         tk = 'T2'
-    t, origin = draw(gen.doc_for(spec, tags=draw(st.integers(0, 3)) == 0, hard=draw(st.booleans())))
+    if tk == 'T2' and draw(st.integers(0, 3)) == 0:
+        # every position below Any: explicit tags (also on scalars) must be
+        # ignored whatever the style
+        spec = dict(spec, doc_type=draw(st.sampled_from(
+            ['any', ['dict', 'str', 'any'], ['list', 'any'], ['opt', ['list', 'any']]])))
+        t = draw(gen.random_trees(spec))
+        t, ops = draw(gen.mutate(spec, t, n=draw(st.integers(1, 3)), kinds=['tag']))
+        origin = 'random_below_any+tag'
+    else:
+        t, origin = draw(gen.doc_for(spec, tags=draw(st.integers(0, 3)) == 0, hard=draw(st.booleans())))
     case = {'model': spec, 'T': tk, 'text': T.render_flow(t), 'src': origin.split(':')[0]}
     if tk == 'T2':
         case['style'] = draw(st.sampled_from(T.STYLES))
